@@ -38,7 +38,7 @@ CHECKS = {
  "C07": ("exploration",
          "API-level trace monitor of AdvancedAgenda against a shadow multiset with limbo (exhaustive and random), logical-step termination monitor in child processes for five fire_all entry points, engine-level no-loop / salience-order / bound monitors on IncrementalEngine histories",
          "Part A drives AdvancedAgenda with every sequence of a 21-operation alphabet to the stated length plus random sequences and checks each pop against a shadow multiset (no eligible pending activation of the focused group with a larger (salience, earlier-created) key; no-loop and activation-group exclusivity between resets). Part B runs rule programs incl. always-true rules without no-loop on IncrementalEngine, TypedReteUlEngine, ReteUlEngine and the free fire_rete_ul_rules* functions in child processes; action closures count executions and unwind beyond 100 x 1000 x #rules (logical 'does not return'); documented iteration bounds are checked. Part C checks no-loop, salience order and the bound on IncrementalEngine histories. Held = no explored sequence or program broke a clause apart from the pinned findings.",
-         "'Earlier-created' is the order of Activation::new calls with forced distinct instants (equal-instant ties are not exercised). Lock-on-active, auto-focus, ruleflow groups and non-Salience strategies are outside the statement. Action-free spinning can only be inconclusive under the CPU back-stop (none occurred).",
+         "'Earlier-created' is the order of Activation::new calls with forced distinct instants (equal-instant ties are not exercised). Lock-on-active, auto_focus activations and one ruleflow group are exercised at API level (queued members of a ruleflow group switched off later are not judged); non-Salience strategies are outside the statement. Action-free spinning can only be inconclusive under the CPU back-stop (none occurred).",
          "DESIGN.md §5 C07"),
  "C08": ("exploration",
          "state-invariant monitor with an independent reference support model over exhaustive and random insert/justify/retract histories",
@@ -51,12 +51,12 @@ CHECKS = {
          "Trusts DESIGN §4.2 semantics (cross-type / ambiguous nested-vs-flat = Undefined, skipped+counted) and the height convention initial=0, rule=+1; K silent on multi-valued fields; completeness only DFS/max_solutions 1; Miri covers the hand-built tree workloads only (a Miri build/run failure is inconclusive).",
          "DESIGN.md §5 C09"),
  "C10": ("exploration",
-         "model-based step monitor (stack of snapshots) over exhaustive and random op sequences of the Facts undo API + before/after fact comparison of every failed backward query",
-         "All sequences of length 5/6 over an 18-op alphabet (begin/commit/rollback/set/set_nested/remove x 3 keys x 2 values) from 2 initial stores, random to length 10, whole store compared with the model after every op; every C09-style query answered 'not provable' must leave get_all_facts() unchanged. Held = no step or failed query broke a clause apart from the open findings.",
+         "model-based step monitor (stack of snapshots) over exhaustive and random op sequences of the Facts undo API + before/after fact comparison of every failed backward query (plain, negated, and over rules with Append/Retract/Set side effects)",
+         "All sequences of length 5/6 over a 20-op alphabet (begin/commit/rollback/set/set_nested/remove x 3 keys x 2 values, plus set/remove of a flat key whose name extends another key) from 2 initial stores, random to length 10, whole store compared with the model after every op; every C09-style query answered 'not provable' must leave get_all_facts() unchanged. Held = no step or failed query broke a clause apart from the open findings.",
          "Only values/absence are compared (not Facts' type tags); set_nested on an absent or non-object root is Err with no change; open undo frames after a query (hook H4) are reported, not judged.",
          "DESIGN.md §5 C10"),
  "C11": ("exploration",
-         "differential history monitor: reused engine vs freshly built engine on a deep copy of the facts at every query step",
+         "differential history monitor: reused engine vs freshly built engine (with the configuration in force at that moment) on a deep copy of the facts at every query step; steps include set_config, GRLQueryExecutor queries, aggregate queries and caller-side undo frames",
          "Histories of <= 6 steps (queries from a small pool, caller-side set/remove, RETE retractions when attached) on one engine; every query step compared with a fresh engine; exhaustive 5^4 histories over 2 queries x 3 edits for 10/50 KBs, random beyond. Held = every judged answer equalled the fresh engine's apart from the text-keyed memo finding.",
          "answer = QueryResult.provable; a mismatch that does not reproduce in every confirmation run (candidate order is HashSet-dependent) is counted, not judged.",
          "DESIGN.md §5 C11"),
@@ -73,7 +73,7 @@ CHECKS = {
  "C14": ("exploration",
          "reference-model trace monitor over ALL merges of two arrival orders (exhaustive small scope + seeded random pairs), driving StreamJoinNode directly and through StreamJoinManager, with and without watermark updates",
          "Every JoinedEvent returned by process_left/process_right/update_watermark (or delivered to the manager's handler) is tagged with harness-assigned unique ids and compared with the reference inner join of the events that have arrived: nothing outside the reference, nothing twice, and a reference pair may be missing only if its first-arrived side was eligible for eviction (watermark - ts > window) at a watermark update before the partner arrived; without watermark updates the emitted multiset must equal the reference exactly and emitted sets are also compared directly between merges. For every generated pair (<=4+4 events, 1-3 keys, keyless events, ts 0..6, windows 0/1/2/5 s, condition true or l.v<=r.v) all <=70 merges are run; all pairs of <=2+2 events over a stated small domain are enumerated with every placement and value of one watermark update. Held = no listed run broke a clause.",
-         "Window and timestamps in whole seconds (the node's as_secs() convention; the millisecond wording is not judged). Unique event ids assumed. Which eligible events are evicted is not prescribed. Only Inner + TimeWindow; outer joins, count/session windows, self-joins and watermark regress are outside the statement.",
+         "Window and timestamps in whole seconds (the node's as_secs() convention; the millisecond wording is not judged). Event ids are unique or (1/5 of the random pairs) per-entity ids reused across timestamps; two events of one stream sharing id AND timestamp are not judged. Which eligible events are evicted is not prescribed. Only Inner + TimeWindow; outer joins, count/session windows, self-joins and watermark regress are outside the statement.",
          "DESIGN.md §5 C14"),
  "C15": ("exploration",
          "model-based step monitor over exhaustive and random operation sequences (ordered list + version model); linearizability checking (WGL search, memoised) of recorded 3-thread histories under seeded schedule perturbation (hook H5); Miri many-seeds and a ThreadSanitizer build of the same generator in the thorough tier; deadlock watchdog",
@@ -96,13 +96,13 @@ CHECKS = {
          "The model follows the Ok/Err of create/delete/add operations instead of prescribing them; acceptance of acyclic imports and template-visibility values are not demanded; Module::add_import and the GRL parser front-end are not driven; a defect whose only symptom carries one of the open signatures would be masked.",
          "DESIGN.md §5 C18"),
  "C19": ("exploration",
-         "differential monitor: execute_parallel with parallelism on (repeated under seeded schedule perturbation, hook H5) vs parallelism off vs an independent three-valued reference evaluation, plus structural clauses on execution_contexts; exhaustive chunking grid + random rule sets; deadlock watchdog; Miri many-seeds and a ThreadSanitizer build of the same generator in the thorough tier",
+         "differential monitor: execute_parallel with parallelism on (repeated under seeded schedule perturbation, hook H5) vs parallelism off vs an independent three-valued reference evaluation, plus structural clauses on execution_contexts; exhaustive chunking grid + random rule sets + rule sets with long/deep conditions judged one per child process (an abnormal death of the child is a violation); deadlock watchdog; Miri many-seeds and a ThreadSanitizer build of the same generator in the thorough tier",
          "Rule sets of 1-24 rules in the typed core (int/string/bool field vs literal under && / || / !, salience ties, disabled rules; one third written as GRL text and parsed by the real parser) are executed by ParallelRuleEngine once with parallelism off and 4 (thorough 8) times with parallelism on for max_threads 1-16 and min_rules_per_thread 1-4 — the whole (rules per level x max_threads x min_rules_per_thread) grid once, random configurations beyond — while seeded yields/sleeps at the worker-loop schedule points vary the interleaving. Every result must be Ok, list every enabled rule exactly once and nothing else, report evaluated = #enabled and fired = #fired contexts, agree with the reference verdict where defined, keep higher salience first; parallel and one-by-one results must have the same fired set and counts. A watchdog decides 'does not return' on a no-thread-runnable/no-CPU/no-progress criterion. Thorough repeats small cases under Miri's seeded scheduler and the full generator in a ThreadSanitizer build (reports = violations). Held = no explored run broke a clause.",
          'Schedules are those reached by perturbed native runs, 48 Miri seeds and TSan stress, not all schedules. Generated actions write only Out.* keys no condition reads (Facts is shared between workers, so other rule sets have legitimately schedule-dependent verdicts and are outside the statement). A leaf on a missing field is Undefined for the reference (the parallel evaluator answers false there, also for !=; differential comparison still applies). Order inside a salience level is unconstrained. Exists/forall/accumulate/function-call conditions and custom functions in conditions are not generated. Miri/TSan build failures or timeouts are inconclusive.',
          "DESIGN.md §5 C19"),
  "C20": ("fault_enumeration",
-         "reference-model history monitor under an LD_PRELOAD virtual clock (exhaustive small scope + seeded random, also real clock) + strace fault enumeration of a real checkpoint() call (SIGKILL before every syscall, ENOSPC/EIO on every syscall, every byte-prefix / zero-filled tail of the state file) with a fresh-store restore oracle",
-         "Runs the real StateStore (file backend) on every op sequence of a stated 21-letter alphabet up to length 5/6 and on random histories of up to 10 ops over 3 keys, comparing every public view with an independent model after each op and the store with the recorded snapshot after each restore; then kills a child on entry to each syscall its checkpoint() issues (observed with strace), fails each of those syscalls with ENOSPC/EIO and cuts the state file at every byte, each time requiring that fresh stores restore all earlier checkpoints exactly and the interrupted one completely or not at all. Held = none of the executions listed in the evidence broke a clause.",
+         "reference-model history monitor under an LD_PRELOAD virtual clock (exhaustive small scope + seeded random, also real clock) + strace fault enumeration of a real checkpoint() call (SIGKILL before every syscall, ENOSPC/EIO on every syscall, every byte-prefix / zero-filled tail of the state file) with a fresh-store restore oracle, plus runs in which the process survives the injected error and carries on (follow-up checkpoints, every checkpoint retention still owes restored)",
+         "Runs the real StateStore (file backend) on every op sequence of a stated 22-letter alphabet (incl. cleanup_expired) up to length 5/6 and on random histories of up to 10 ops over 3 keys, comparing every public view with an independent model after each op and the store with the recorded snapshot after each restore; then kills a child on entry to each syscall its checkpoint() issues (observed with strace), fails each of those syscalls with ENOSPC/EIO and cuts the state file at every byte, each time requiring that fresh stores restore all earlier checkpoints exactly and the interrupted one completely or not at all. Held = none of the executions listed in the evidence broke a clause.",
          "Crash = process death between syscalls; torn writes and lost page cache approximated by byte prefixes and zero tails (no block reordering, no fsync/power-loss model). TTL boundary instant, TTL restart on update, TTL after restore and upsert are treated as open. Real-clock collisions are timing dependent, frozen-clock ones deterministic. Needs strace and the clock shim, otherwise inconclusive (exit 3).",
          "DESIGN.md §5 C20"),
 }
